@@ -1904,11 +1904,15 @@ pub fn c07_judge(c: &ServeCase, o: &ServeObs, sink: &mut Sink) -> (Verdict, Opti
     let stream_len = fe - fs;
     let kind = format!("{:?}", f.kind);
     let shape = if r.get("content-type").is_some_and(|t| t.starts_with(b"multipart/")) { format!("multipart-part{}", f.call) } else { r.status.to_string() };
+    if f.kind == FaultKind::Panic {
+        return (Verdict::DontCare("panicking entity stream (explored by C20 only)".into()), None);
+    }
     if let Terminal::Panic(p) = &d.terminal {
         return (Verdict::viol(format!("{}|{}|panic", kind, shape), format!("draining panicked: {}", p)), None);
     }
     let announced = r.get_u64("content-length").unwrap_or(o.init_hint.0);
     match f.kind {
+        FaultKind::Panic => unreachable!(),
         FaultKind::EarlyEnd | FaultKind::Err => {
             if f.kind == FaultKind::EarlyEnd && f.at >= stream_len {
                 return (Verdict::DontCare("early end at the very end is no fault".into()), None);
@@ -2112,6 +2116,26 @@ pub fn long_fault_cases(slow: bool) -> Vec<ServeCase> {
     out
 }
 
+/// Entities of length 0 whose stream misbehaves all the same (the tuple enumeration starts at
+/// one byte).
+pub fn empty_entity_fault_cases() -> Vec<ServeCase> {
+    let mut out = Vec::new();
+    for sizes in [vec![], vec![Sz::Abs(0)], vec![Sz::Abs(0), Sz::Abs(0), Sz::Abs(0)], vec![Sz::Abs(2)]] {
+        for (kind, at) in [(FaultKind::Err, 0u64), (FaultKind::ExtraByte, 0), (FaultKind::ExtraChunk, 0), (FaultKind::Overrun, 1), (FaultKind::Overrun, 3)] {
+            for pend in [false, true] {
+                for hint_exact in [false, true] {
+                    let plan = ChunkPlan { sizes: sizes.clone(), pend_mask: if pend { 0b1 } else { 0 }, pend_period: if pend { 2 } else { 0 }, hint_exact };
+                    let ent = EntSpec { len: 0, etag: None, mtime: None, hdrs: vec![("content-type".into(), b"x/y".to_vec())], plan, fault: Some(Fault { call: 0, at, kind: kind.clone(), shrunk_len: None }), slow_calls: false, content_mode: 0 };
+                    let mut c = ServeCase::get(ent);
+                    c.extra_polls = 3;
+                    out.push(c);
+                }
+            }
+        }
+    }
+    out
+}
+
 impl Prop for C07 {
     fn id(&self) -> &'static str {
         "C07"
@@ -2120,7 +2144,7 @@ impl Prop for C07 {
         "fault_enumeration"
     }
     fn rule(&self, _: &Ctx) -> String {
-        "exhaustive: every entity stream of 1..4 chunks (1..5 in the thorough tier) with chunk lengths 0..3 x fault {early end, Err, one extra byte inside a chunk, one extra chunk} at every byte offset x response shape {200, single 206, multipart of 2 and 3 parts with the fault in each part} x {plain, Pending polls before the fault, stream with an exact size_hint, runs of 40 empty chunks, an entity whose own len() has shrunk to where the stream ends, a matching If-Range on the request}; plus the same fault kinds late in bodies of 64 KiB .. 200 KB delivered in chunks of 5 .. 4096 bytes. Non-trivial = distinct case in which the faulty stream was actually requested and the terminal event / delivered byte count was compared with the rule".into()
+        "exhaustive: every entity stream of 1..4 chunks (1..5 in the thorough tier) with chunk lengths 0..3 x fault {early end, Err, one extra byte inside a chunk, one extra chunk} at every byte offset x response shape {200, single 206, multipart of 2 and 3 parts with the fault in each part} x {plain, Pending polls before the fault, stream with an exact size_hint, runs of 40 empty chunks, an entity whose own len() has shrunk to where the stream ends, a matching If-Range on the request}; plus the same fault kinds late in bodies of 64 KiB .. 200 KB delivered in chunks of 5 .. 4096 bytes, and in the stream of a zero-length entity. Non-trivial = distinct case in which the faulty stream was actually requested and the terminal event / delivered byte count was compared with the rule".into()
     }
     fn n_blocks(&self, ctx: &Ctx) -> usize {
         if ctx.leg.slow() { 40 } else if thorough(ctx) { c07_tuples_upto(5).len() } else { c07_tuples().len() }
@@ -2142,6 +2166,10 @@ impl Prop for C07 {
             for c in long_fault_cases(slow) {
                 exec(&c, sink, &c07_judge);
                 sink.count("long_body_fault_cases");
+            }
+            for c in empty_entity_fault_cases() {
+                exec(&c, sink, &c07_judge);
+                sink.count("empty_entity_fault_cases");
             }
         }
     }
